@@ -237,6 +237,63 @@ def origin(x):
     return getattr(x, "origin", None)
 
 
+def wiring_path(ck, mode, tag, p):
+    st = p.state
+    tbl = st["table"]
+    calls = [c for c in st["log"] if c[1] == "geom.mcintegral"]
+    by_method = {c[3].get("method"): c for c in calls}
+
+    def sy(path):
+        return tbl[path]
+
+    def chk(name, ok, clause, got=""):
+        ck.direct("%s/%s" % (tag, name), bool(ok), "defuse", "symbolic-execution(def-use)", note="" if ok else "found: %s" % (got,), clause=clause,
+                  witness=None if ok else {"mode": mode, "found": str(got)})
+
+    for method, trig, cosarg, thr_path in (("Optical", "optical.numPEs", "optical.costhetaChEff", "detector.optical.photo_electron_threshold"),
+                                            ("Radio", "radio.snrs", None, "detector.radio.snr_threshold")):
+        c = by_method.get(method)
+        chk("call.%s.exists" % method.lower(), c is not None and len([x for x in calls if x[3].get("method") == method]) == 1,
+            "exactly one mcintegral call with method=%s" % method, [x[3].get("method") for x in calls])
+        if c is None:
+            continue
+        a, k = c[2], c[3]
+        chk("call.%s.triggers" % method.lower(), origin(a[0]) == trig, "trigger argument is the %s column" % trig, origin(a[0]))
+        if cosarg:
+            chk("call.%s.cosine" % method.lower(), origin(a[1]) == cosarg, "cone cosine is the stored %s column" % cosarg, origin(a[1]) or a[1])
+        else:
+            want = sp.cos(sy("simulation.max_cherenkov_angle"))
+            chk("call.radio.cosine", isinstance(a[1], S) and sp.simplify(a[1].e - want) == 0, "cone cosine is cos(max_cherenkov_angle)", a[1])
+        chk("call.%s.pexit" % method.lower(), origin(a[2]) == "tau.tauExitProb", "exit probability is the tauExitProb column", origin(a[2]))
+        chk("call.%s.threshold" % method.lower(), isinstance(a[3], S) and a[3].e == sy(thr_path), "threshold is config %s" % thr_path, a[3])
+        chk("call.%s.spectrum" % method.lower(), isinstance(a[4], S) and str(a[4].e) == "mc_spec_norm" and isinstance(a[5], S) and str(a[5].e) == "spec_weights_sum",
+            "spectrum normalisation and weight sum are the values returned by the spectrum stage", (a[4], a[5]))
+        chk("call.%s.lenDec" % method.lower(), origin(k.get("lenDec")) == "decay.lenDec", "lenDec is the stored decay-length column", origin(k.get("lenDec")))
+    # trigger producers
+    eas = [c for c in st["log"] if c[1] == "EAS.__call__"]
+    chk("call.eas.args", len(eas) == 1 and [origin(x) for x in eas[0][2][:5]] == ["geom.beta_tr", "decay.altDec", "tau.showerEnergy", "geom.init_lat", "geom.init_long"],
+        "optical stage receives beta, altDec, showerEnergy, init_lat, init_long", [origin(x) for x in eas[0][2][:5]] if eas else None)
+    rad = [c for c in st["log"] if c[1] == "EASRadio.__call__"]
+    chk("call.radio_stage.args", len(rad) == 1 and [origin(x) for x in rad[0][2][:6]] == ["geom.beta_tr", "decay.altDec", "decay.lenDec", "geom.thetaArr", "geom.pathLenArr", "tau.showerEnergy"],
+        "radio stage receives beta, altDec, lenDec, theta, pathLen, showerEnergy", [origin(x) for x in rad[0][2][:6]] if rad else None)
+    snr = [c for c in st["log"] if c[1] == "calculate_snr"]
+    ok = False
+    if len(snr) == 1:
+        a = snr[0][2]
+        try:
+            ok = (origin(a[0]) == "radio.EFields" and a[1][0].e == sy("detector.radio.low_frequency") and a[1][1].e == sy("detector.radio.high_frequency")
+                  and a[2].e == sy("detector.initial_position.altitude") and a[3] == st["cfg"].detector.radio.nantennas and a[4].e == sy("detector.radio.gain"))
+        except Exception:
+            ok = False
+    chk("call.snr.args", ok, "SNR is computed from EFields, the configured band, detector altitude, antenna count and gain", snr[0][2] if snr else None)
+    # header keywords
+    metas = {o[1]: o[2] for o in st["ops"] if o[0] == "meta"}
+    for key, sname in (("OMCINT", "mcint_Optical"), ("OMCINTGO", "mcintgeo_Optical"), ("ONEVPASS", "passEV_Optical"),
+                       ("RMCINT", "mcint_Radio"), ("RMCINTGO", "mcintgeo_Radio"), ("RNEVPASS", "passEV_Radio")):
+        v = metas.get(key)
+        chk("meta.%s" % key, v is not None and isinstance(v[0], S) and str(v[0].e) == sname, "header %s is the matching component of the matching channel's integral" % key, v)
+
+
 def wiring(ck):
     from contracts.compute_model import Model
 
@@ -244,68 +301,18 @@ def wiring(ck):
         m = Model(mode=mode, optical=True, radio=True, write_stages=False)
         paths = m.run()
         ck.add_functions(m.interp)
-        main = [p for p in paths if p.kind == "return" and any(c[1] == "geom.mcintegral" for c in p.state["log"])]
+        # every returning path on which events survive the geometry stage must do the whole job: the only legitimate early return is
+        # `no event left` (decided before the tau stage runs)
+        main = [p for p in paths if p.kind == "return" and any(c[1] == "Taus.__call__" for c in p.state["log"])]
         tag = "compute[%s]" % mode
-        if any(p.kind == "unsupported" for p in paths) or len(main) != 1:
+        if any(p.kind == "unsupported" for p in paths) or not main or len(main) > 8:
             o = ck.ob("%s/exec" % tag, "exec")
             o.note = "; ".join("%s %s" % (p.kind, p.exc) for p in paths)
             ck._undecided(o, None)
             continue
-        p = main[0]
-        st = p.state
-        tbl = st["table"]
-        calls = [c for c in st["log"] if c[1] == "geom.mcintegral"]
-        by_method = {c[3].get("method"): c for c in calls}
+        for pi, p in enumerate(main):
+            wiring_path(ck, mode, tag if pi == 0 else "%s[path%d: %s]" % (tag, pi, "; ".join(str(c)[:40] for c in p.pc[-2:])), p)
 
-        def sy(path):
-            return tbl[path]
-
-        def chk(name, ok, clause, got=""):
-            ck.direct("%s/%s" % (tag, name), bool(ok), "defuse", "symbolic-execution(def-use)", note="" if ok else "found: %s" % (got,), clause=clause,
-                      witness=None if ok else {"mode": mode, "found": str(got)})
-
-        for method, trig, cosarg, thr_path in (("Optical", "optical.numPEs", "optical.costhetaChEff", "detector.optical.photo_electron_threshold"),
-                                                ("Radio", "radio.snrs", None, "detector.radio.snr_threshold")):
-            c = by_method.get(method)
-            chk("call.%s.exists" % method.lower(), c is not None and len([x for x in calls if x[3].get("method") == method]) == 1,
-                "exactly one mcintegral call with method=%s" % method, [x[3].get("method") for x in calls])
-            if c is None:
-                continue
-            a, k = c[2], c[3]
-            chk("call.%s.triggers" % method.lower(), origin(a[0]) == trig, "trigger argument is the %s column" % trig, origin(a[0]))
-            if cosarg:
-                chk("call.%s.cosine" % method.lower(), origin(a[1]) == cosarg, "cone cosine is the stored %s column" % cosarg, origin(a[1]) or a[1])
-            else:
-                want = sp.cos(sy("simulation.max_cherenkov_angle"))
-                chk("call.radio.cosine", isinstance(a[1], S) and sp.simplify(a[1].e - want) == 0, "cone cosine is cos(max_cherenkov_angle)", a[1])
-            chk("call.%s.pexit" % method.lower(), origin(a[2]) == "tau.tauExitProb", "exit probability is the tauExitProb column", origin(a[2]))
-            chk("call.%s.threshold" % method.lower(), isinstance(a[3], S) and a[3].e == sy(thr_path), "threshold is config %s" % thr_path, a[3])
-            chk("call.%s.spectrum" % method.lower(), isinstance(a[4], S) and str(a[4].e) == "mc_spec_norm" and isinstance(a[5], S) and str(a[5].e) == "spec_weights_sum",
-                "spectrum normalisation and weight sum are the values returned by the spectrum stage", (a[4], a[5]))
-            chk("call.%s.lenDec" % method.lower(), origin(k.get("lenDec")) == "decay.lenDec", "lenDec is the stored decay-length column", origin(k.get("lenDec")))
-        # trigger producers
-        eas = [c for c in st["log"] if c[1] == "EAS.__call__"]
-        chk("call.eas.args", len(eas) == 1 and [origin(x) for x in eas[0][2][:5]] == ["geom.beta_tr", "decay.altDec", "tau.showerEnergy", "geom.init_lat", "geom.init_long"],
-            "optical stage receives beta, altDec, showerEnergy, init_lat, init_long", [origin(x) for x in eas[0][2][:5]] if eas else None)
-        rad = [c for c in st["log"] if c[1] == "EASRadio.__call__"]
-        chk("call.radio_stage.args", len(rad) == 1 and [origin(x) for x in rad[0][2][:6]] == ["geom.beta_tr", "decay.altDec", "decay.lenDec", "geom.thetaArr", "geom.pathLenArr", "tau.showerEnergy"],
-            "radio stage receives beta, altDec, lenDec, theta, pathLen, showerEnergy", [origin(x) for x in rad[0][2][:6]] if rad else None)
-        snr = [c for c in st["log"] if c[1] == "calculate_snr"]
-        ok = False
-        if len(snr) == 1:
-            a = snr[0][2]
-            try:
-                ok = (origin(a[0]) == "radio.EFields" and a[1][0].e == sy("detector.radio.low_frequency") and a[1][1].e == sy("detector.radio.high_frequency")
-                      and a[2].e == sy("detector.initial_position.altitude") and a[3] == st["cfg"].detector.radio.nantennas and a[4].e == sy("detector.radio.gain"))
-            except Exception:
-                ok = False
-        chk("call.snr.args", ok, "SNR is computed from EFields, the configured band, detector altitude, antenna count and gain", snr[0][2] if snr else None)
-        # header keywords
-        metas = {o[1]: o[2] for o in st["ops"] if o[0] == "meta"}
-        for key, sname in (("OMCINT", "mcint_Optical"), ("OMCINTGO", "mcintgeo_Optical"), ("ONEVPASS", "passEV_Optical"),
-                           ("RMCINT", "mcint_Radio"), ("RMCINTGO", "mcintgeo_Radio"), ("RNEVPASS", "passEV_Radio")):
-            v = metas.get(key)
-            chk("meta.%s" % key, v is not None and isinstance(v[0], S) and str(v[0].e) == sname, "header %s is the matching component of the matching channel's integral" % key, v)
 
 
 # ------------------------------------------------------------------------------------------
